@@ -89,6 +89,42 @@ def sroa_cause(before, after, msg):
     return None
 
 
+def lower_hook_in_sync():
+    """The raw-lowering hook repeats the body of LowerWithWarnings up to the trailing passes:
+    compare it with the current source text (so that an edit of the lowerer cannot leave the
+    hook behind silently).  Returns None if in sync, else a description."""
+    base = os.path.join(vcheck.REPO, "wgsl", "internal", "lower")
+    try:
+        src = open(os.path.join(base, "lower.go")).read().split("\n")
+        hook = open(os.path.join(base, "verif_hooks_c13.go")).read().split("\n")
+    except OSError as e:
+        return "cannot read lowerer or hook: %s" % e
+    marker = "l.module.Types = l.registry.GetTypes()"
+
+    def body(lines, start_prefix):
+        try:
+            a = next(i for i, l in enumerate(lines) if l.startswith(start_prefix))
+            b = next(i for i in range(a, len(lines)) if marker in lines[i])
+        except StopIteration:
+            return None
+        return [l.replace("return nil, nil, &l.errors", "return nil, &l.errors") for l in lines[a + 1:b + 1]]
+    x = body(src, "func LowerWithWarnings(")
+    y = body(hook, "func VerifLowerRaw(")
+    if x is None or y is None:
+        return "LowerWithWarnings / VerifLowerRaw not found in the expected shape"
+    if x != y:
+        for i, (p, q) in enumerate(zip(x, y)):
+            if p != q:
+                return "first differing line %d: lowerer %r, hook %r" % (i + 1, p.strip(), q.strip())
+        return "bodies differ in length (%d vs %d lines)" % (len(x), len(y))
+    # and the trailing passes are the five the harness replays as raw:lower_pipeline, in this order
+    tail = "\n".join(src[next(i for i, l in enumerate(src) if marker in l and i > 200):][:60])
+    order = [tail.find("ir.%s(l.module)" % f) for f in ("CompactConstants", "CompactExpressions", "CompactTypes", "ReorderTypes", "DeduplicateEmits")]
+    if -1 in order or order != sorted(order):
+        return "the lowerer's trailing passes are no longer CompactConstants, CompactExpressions, CompactTypes, ReorderTypes, DeduplicateEmits in this order"
+    return None
+
+
 def run(ctx):
     _viol = ctx.violation
 
@@ -118,6 +154,12 @@ def run(ctx):
     broken = None
     if not ok:
         broken = "Coq development no longer checks: %s" % (failed or log[-600:])
+    stale = lower_hook_in_sync()
+    ctx.cov["lower_hook_in_sync"] = stale is None
+    if stale:
+        ctx.violation("the raw-lowering hook wgsl/internal/lower/verif_hooks_c13.go no longer repeats LowerWithWarnings: %s "
+                      "(the raw:* comparisons would not see the modules the trailing passes receive in production)" % stale,
+                      found_input=False, key="hook:lower-raw-stale", broken="hook VerifLowerRaw out of date")
     exe = ocamlbuild.build("passmodel")
 
     # ---- programs
